@@ -23,6 +23,13 @@ func init() {
 				col.Add(run.Finding{Case: idx, Step: -1, Target: "harness", Rule: "decode-case", Class: "error", Detail: err.Error()})
 				return
 			}
+			if !cs.ForEngine(replay.BindnodeEngine) {
+				col.AddExtra("other_engines_style_of_refusing_a_repeated_key", 1)
+				return
+			}
+			if cs.Early {
+				col.AddExtra("repeated_key_refused_at_the_key", 1)
+			}
 			fs, n := replay.ReplayTypedAsm(&cs, replay.BindnodeEngine, *secondary)
 			for _, f := range fs {
 				f.Case = idx
